@@ -565,16 +565,20 @@ async fn history(case: Json) -> Json {
                                 .collect();
                             Ok((n_cookies, hs))
                         }
-                        Err(_) => Err("inject".to_string()),
+                        Err(_) => Err(("inject".to_string(), 0)),
                     }
                 }
-                Err(e) => Err(match &e {
-                    FinalizeError::SerializationError(_) => "serialization".to_string(),
-                    FinalizeError::SyncErr(e) => format!("sync:{}", sync_err_kind(e)),
-                    FinalizeError::EncryptionRequired { .. } => "encryption-required".to_string(),
-                    FinalizeError::CryptoRequired { .. } => "crypto-required".to_string(),
-                    _ => "other".to_string(),
-                }),
+                Err(e) => Err((
+                    match &e {
+                        FinalizeError::SerializationError(_) => "serialization".to_string(),
+                        FinalizeError::SyncErr(e) => format!("sync:{}", sync_err_kind(e)),
+                        FinalizeError::EncryptionRequired { .. } => "encryption-required".to_string(),
+                        FinalizeError::CryptoRequired { .. } => "crypto-required".to_string(),
+                        _ => "other".to_string(),
+                    },
+                    // the request failed: how many cookies did the middleware leave behind?
+                    response_cookies.iter().count(),
+                )),
             }
         };
         let outcome = CatchUnwind(Box::pin(fut)).await;
@@ -582,7 +586,7 @@ async fn history(case: Json) -> Json {
         let mut new_cookie: Option<Option<ClientCookie>> = None; // Some(None) = removal
         let fin = match outcome {
             Err(()) => json!({"r": "panic"}),
-            Ok(Err(kind)) => json!({"r": "err", "kind": kind}),
+            Ok(Err((kind, left))) => json!({"r": "err", "kind": kind, "set": left}),
             Ok(Ok((_, hs))) if hs.is_empty() => json!({"r": "none"}),
             Ok(Ok((n, hs))) if hs.len() != 1 || n != 1 => json!({"r": "several-cookies", "n": hs.len()}),
             Ok(Ok((_, hs))) => match parse_set_cookie(&hs[0]) {
